@@ -199,9 +199,18 @@ where
 }
 
 fn extreme_calendar() -> ContextHolidays {
-    let cal: CompactCalendar = [NaiveDate::MIN, NaiveDate::MAX, ymd(2020, 2, 29), ymd(1900, 1, 1), ymd(9999, 12, 31)].into_iter().collect();
-    let cal = Arc::new(cal);
-    ContextHolidays::new(cal.clone(), cal)
+    static CAL: std::sync::OnceLock<ContextHolidays> = std::sync::OnceLock::new();
+    CAL.get_or_init(|| {
+        let cal: CompactCalendar = [NaiveDate::MIN, NaiveDate::MAX, ymd(2020, 2, 29), ymd(1900, 1, 1), ymd(9999, 12, 31)].into_iter().collect();
+        let cal = Arc::new(cal);
+        ContextHolidays::new(cal.clone(), cal)
+    })
+    .clone()
+}
+
+fn synthetic_holidays() -> ContextHolidays {
+    static CAL: std::sync::OnceLock<ContextHolidays> = std::sync::OnceLock::new();
+    CAL.get_or_init(|| crate::ctx::synthetic().real.holidays.clone()).clone()
 }
 
 fn tz_instants(tz: Tz) -> Vec<(String, DateTime<Tz>)> {
@@ -223,7 +232,9 @@ fn tz_instants(tz: Tz) -> Vec<(String, DateTime<Tz>)> {
 
 /// Run the whole battery on one expression text. `level`: 0 = naive contexts only,
 /// 1 = + time zones and coordinates (bounded), 2 = + unbounded calls in time-zone contexts.
-pub fn evaluate(text: &str, level: u8, base_budget: i64, acc: &mut Acc) -> u64 {
+pub fn evaluate(text: &str, level: u8, base_budget: i64, sweep_step: i64, acc: &mut Acc) -> u64 {
+    // base_budget == 0: no unbounded long-horizon call at all for this expression (quick tier,
+    // 7 expressions out of 8): one such call can cost 2.9 M schedules whatever the budget
     let Ok(Ok(oh)) = catch(|| OpeningHours::parse(text)) else { return 0 };
     let mut calls = 0u64;
     let mut budget: i64 = if level >= 2 { base_budget * 8 } else { base_budget };
@@ -239,8 +250,40 @@ pub fn evaluate(text: &str, level: u8, base_budget: i64, acc: &mut Acc) -> u64 {
         }
         calls += c.calls;
     }
+    // date sweep: selector arithmetic can panic on particular days only (leap days, Easter
+    // positions, year ends): schedule_at on a lattice of days of 1900..2110 (every `sweep_step`-th)
+    // and, coarser, of the whole supported range — one catch_unwind around the whole sweep
+    {
+        let cur = std::cell::Cell::new(ymd(1900, 1, 1));
+        let n = std::cell::Cell::new(0u64);
+        let r = catch(|| {
+            let mut d = ymd(1900, 1, 1);
+            while d <= ymd(2110, 12, 31) {
+                cur.set(d);
+                n.set(n.get() + 1);
+                std::hint::black_box(oh.schedule_at(d));
+                d = d + Duration::days(sweep_step);
+            }
+            let mut d = ymd(2111, 1, 1);
+            while d <= ymd(9999, 12, 31) {
+                cur.set(d);
+                n.set(n.get() + 1);
+                std::hint::black_box(oh.schedule_at(d));
+                d = d + Duration::days(sweep_step * 53);
+            }
+        });
+        calls += n.get();
+        if let Err(p) = r {
+            acc.violate(Violation::new(
+                "panic",
+                vec![format!("at:{}", p.loc), "call:schedule_at".to_string()],
+                json!({"expr": text, "ctx": "default", "call": "schedule_at", "arg": cur.get().to_string(), "at": p.loc}),
+                format!("`{text}` [default] schedule_at({}) panicked: {} at {}", cur.get(), p.msg, p.loc),
+            ));
+        }
+    }
     let naive: Vec<(String, NaiveDateTime)> = naive_instants().into_iter().map(|t| (fmt_dt(t), t)).collect();
-    let syn = crate::ctx::synthetic();
+    let syn_holidays = synthetic_holidays();
     // naive contexts: (name, holidays, bound)
     let mut plans: Vec<(&str, ContextHolidays, Option<Duration>)> = vec![
         ("default", ContextHolidays::default(), Some(Duration::days(1))),
@@ -248,8 +291,8 @@ pub fn evaluate(text: &str, level: u8, base_budget: i64, acc: &mut Acc) -> u64 {
         ("default", ContextHolidays::default(), None),
     ];
     if holiday {
-        plans.push(("synthetic", syn.real.holidays.clone(), Some(Duration::days(366))));
-        plans.push(("synthetic", syn.real.holidays.clone(), None));
+        plans.push(("synthetic", syn_holidays.clone(), Some(Duration::days(366))));
+        plans.push(("synthetic", syn_holidays.clone(), None));
         // a calendar holding NaiveDate::MIN and MAX (524 k years wide): every hint scans it, so
         // only the one-day bound is affordable
         plans.push(("extreme-calendar", extreme_calendar(), Some(Duration::days(1))));
@@ -271,7 +314,7 @@ pub fn evaluate(text: &str, level: u8, base_budget: i64, acc: &mut Acc) -> u64 {
                 if b.is_none() && level < 2 {
                     continue;
                 }
-                let mut ctx = Context::default().with_holidays(syn.real.holidays.clone()).with_locale(TzLocation::new(tz));
+                let mut ctx = Context::default().with_holidays(syn_holidays.clone()).with_locale(TzLocation::new(tz));
                 if let Some(b) = b {
                     ctx = ctx.approx_bound_interval_size(b);
                 }
@@ -306,6 +349,7 @@ fn has_event(text: &str) -> bool {
 }
 
 pub fn run(cfg: &Cfg) -> Outcome {
+    let t_start = std::time::Instant::now();
     let max_tokens = if cfg.quick() { 4 } else { 5 };
     let n = TOKENS.len();
     // (i) token strings, sharded by the first two tokens
@@ -358,6 +402,7 @@ pub fn run(cfg: &Cfg) -> Outcome {
         acc.merge(a);
         to_eval.extend(p);
     }
+    eprintln!("C04: token strings done at {:.1}s", t_start.elapsed().as_secs_f64());
     // (ii) near-valid strings
     let mut bases: Vec<String> = Vec::new();
     for (i, e) in al::e1(1).iter().enumerate() {
@@ -410,6 +455,7 @@ pub fn run(cfg: &Cfg) -> Outcome {
         acc.merge(a);
         to_eval.extend(p);
     }
+    eprintln!("C04: near-valid strings done at {:.1}s", t_start.elapsed().as_secs_f64());
     // (iii) numeric limits
     for s in numeric_limit_strings() {
         acc.add("strings_parsed", 1);
@@ -446,7 +492,8 @@ pub fn run(cfg: &Cfg) -> Outcome {
             } else {
                 0
             };
-            let calls = evaluate(s, level, if cfg.quick() { 800_000 } else { 12_000_000 }, &mut acc);
+            let budget = if !cfg.quick() { 12_000_000 } else if level >= 2 || i % 8 == 0 { 800_000 } else { 0 };
+            let calls = evaluate(s, level, budget, if cfg.quick() { 29 } else { 1 }, &mut acc);
             acc.add("api_calls", calls);
             acc
         })
@@ -454,6 +501,7 @@ pub fn run(cfg: &Cfg) -> Outcome {
     for a in evals {
         acc.merge(a);
     }
+    eprintln!("C04: battery done at {:.1}s", t_start.elapsed().as_secs_f64());
     let sp = acc.get("strings_parsed");
     let ac = acc.get("api_calls");
     acc.add("evaluations", sp + ac);
@@ -466,7 +514,7 @@ pub fn run(cfg: &Cfg) -> Outcome {
     o.exhaustive = false;
     o.cov("token_alphabet", json!(TOKENS.to_vec()));
     o.cov("max_tokens", json!(max_tokens));
-    o.cov("rule", json!("exhaustive over a stated finite space (the property quantifies over all strings, so no finite enumeration is complete): every string of ≤ max_tokens tokens over the 46-token alphabet; every single-token deletion/duplication/replacement of E1 ∪ S; numeric fields at their limits; parse under catch_unwind. Every distinct parsed expression (by AST; 4-token strings only in the thorough tier) goes through the battery: to_string, normalize (twice), schedule_at on 11 dates, state/is_*/next_change/iter_from/iter_range at 11 naive instants (MIN, MAX, both range ends…) in default/synthetic/extreme-calendar contexts × {no bound, 1 d, 366 d}, and (for event/limit expressions and a fixed fifth of the rest in quick, all in thorough) 4 time zones and 9 coordinate contexts incl. poles and antimeridian at 8 aware instants. Oracle: no panic; ≤ one schedule_at per day of the supported range per call (H1 counter). distinct_nontrivial = distinct parsed expressions evaluated"));
+    o.cov("rule", json!("exhaustive over a stated finite space (the property quantifies over all strings, so no finite enumeration is complete): every string of ≤ max_tokens tokens over the 46-token alphabet; every single-token deletion/duplication/replacement of E1 ∪ S; numeric fields at their limits; parse under catch_unwind. Every distinct parsed expression (by AST; 4-token strings only in the thorough tier) goes through the battery: to_string, normalize (twice), schedule_at on 11 dates and on every 29th (quick) / every (thorough) day of 1900..2110 plus a 53× coarser lattice to 9999, state/is_*/next_change/iter_from/iter_range at 11 naive instants (MIN, MAX, both range ends…) in default/synthetic/extreme-calendar contexts × {no bound, 1 d, 366 d}, and (for event/limit expressions and a fixed fifth of the rest in quick, all in thorough) 4 time zones and 9 coordinate contexts incl. poles and antimeridian at 8 aware instants. Oracle: no panic; ≤ one schedule_at per day of the supported range per call (H1 counter). distinct_nontrivial = distinct parsed expressions evaluated"));
     o.assume("catch_unwind catches every panic (panic=unwind build); aborts (stack overflow, allocation failure) would kill the engine and surface as a machinery failure, not a pass");
     o
 }
@@ -477,7 +525,7 @@ pub fn replay(_cfg: &Cfg, case: &Value) -> Vec<Violation> {
         parse_guard(s, &mut acc);
     }
     if let Some(text) = case.get("expr").and_then(|v| v.as_str()) {
-        evaluate(text, 2, 12_000_000, &mut acc);
+        evaluate(text, 2, 12_000_000, 1, &mut acc);
     }
     let want_call = case.get("call").and_then(|v| v.as_str()).map(|s| format!("call:{s}"));
     let want_at = case.get("at").and_then(|v| v.as_str()).map(|s| format!("at:{s}"));
